@@ -38,12 +38,16 @@ def main():
         for step in c["steps"]:
             coeffs, origin = step["coeffs"], step["origin"]
             da = other if step.get("via") else first
+            def num(x):
+                # whole numbers are sometimes given the way users write them: as Python ints
+                q = Fraction(*x)
+                return int(q) if (step.get("ints") and q.denominator == 1) else float(q)
             try:
                 for which in step.get("order", "co"):
                     if which == "c":
-                        da.polynom_coefficients = [float(Fraction(*x)) for x in coeffs] if coeffs is not None else None
+                        da.polynom_coefficients = [num(x) for x in coeffs] if coeffs is not None else None
                     else:
-                        da.expansion_origin = float(Fraction(*origin)) if origin is not None else None
+                        da.expansion_origin = num(origin) if origin is not None else None
             except Exception as exc:
                 res["steps"].append({"error": type(exc).__name__})
                 continue
